@@ -40,7 +40,8 @@ def natOps (n : Nat) : Ops Nat where
   sub a b := (a + n - b % n) % n
   mul a b := a * b % n
   inv a := Ymq.PolySpec.invMod a n
-  eq a b := a == b
+  /- `MInt`s hold reduced residues (an invariant of `ZmodN`, property C07): `==` is equality of residues -/
+  eq a b := a % n == b % n
 
 variable {α : Type}
 
